@@ -115,6 +115,15 @@ def chain_cases(q):
         cases.append(("case", ops))
         ops = setup(["pkt"]) + ["prog %d start read 0 4 %d" % (rd(0), rd(0)), "peer 0 data 160", "depth %d" % d0, "start read 0 4 %d" % rd(0), "depth 0"] + ["pollone"] * 3 + ["close 0", "pollone"]
         cases.append(("case", ops))
+    # a packet read re-issued from inside a completion callback (depth 1, 2, 3) finds the socket empty, is parked, and completes in
+    # a later poll: the accounting must be back at its base value afterwards
+    for k in (1, 2, 3):
+        ops = setup(["pkt"]) + ["prog %d start read 0 4 %d" % (rd(0), rd(0)), "peer 0 data %d" % (4 * k), "start read 0 4 %d" % rd(0),
+                                "peer 0 data 4", "pollone", "peer 0 data 8", "pollone", "pollone", "close 0"]
+        cases.append(("case", ops))
+    ops = setup(["pkt", "sock"]) + ["prog %d start read 0 4 %d" % (rd(1), rd(0)), "prog %d start read 1 1 %d" % (rd(0), rd(1)), "peer 1 data 3",
+                                    "start read 1 1 %d" % rd(1), "peer 0 data 4", "pollone", "pollone", "peer 0 data 4", "pollone", "close 0", "cancel 1"]
+    cases.append(("case", ops))
     ops = setup(["pkt", "sock", "lsn"]) + ["prog %d start write 0 4 %d" % (rd(1), wr(0)), "prog %d start read 2 1 %d" % (wr(0), rd(2)), "prog %d start read 1 1 %d" % (rd(2), rd(1)),
                                            "peer 1 data 60", "peer 2 data 60", "start read 1 1 %d" % rd(1)] + ["pollone"] * 6 + ["close 0", "close 2", "cancel 1"]
     cases.append(("case", ops))
@@ -312,6 +321,11 @@ def batch_cases():
         cases.append(("case", setup(["sock"]) + ["start read 0 4 10", "peer 0 kill", "depth 32", "start write 0 4 20", "depth 0"] + tail + ["pollone"]))
         cases.append(("case", setup(["sock"]) + ["depth 32", "start write 0 4 20", "depth 0", "peer 0 kill", "depth 32", "start read 0 4 10", "depth 0"] + tail + ["pollone"]))
         cases.append(("case", setup(["sock"]) + ["peer 0 kill", "start read 0 4 10", "start write 0 4 20", "depth 32", "start read 0 4 10", "depth 0"] + tail + ["pollone"]))
+    # a ReadAll that gets a part of its bytes, goes back to the poller and is completed later (the object has to stay in the
+    # registry while it waits again), with and without the other direction in flight
+    for kind in ("sock", "piper"):
+        cases.append(("case", setup([kind]) + ["start readall 0 8 10", "peer 0 data 3", "pollone", "peer 0 data 3", "pollone", "peer 0 data 2", "pollone", "close 0"]))
+    cases.append(("case", setup(["sock"]) + ["start readall 0 8 10", "depth 32", "start write 0 4 20", "depth 0", "peer 0 data 3", "pollone", "pollone", "peer 0 data 5", "pollone", "close 0"]))
     # packet conn: both directions in flight, handlers that close it, two packet conns ready in one batch
     cases.append(("case", setup(["pkt"]) + ["start read 0 4 10", "depth 32", "start write 0 4 20", "depth 0", "pollone", "peer 0 data 4", "pollone", "close 0", "close 0", "pollone"]))
     cases.append(("case", setup(["pkt"]) + ["start read 0 4 10", "depth 32", "start write 0 4 20", "depth 0", "close 0", "pollone", "start read 0 4 10", "start write 0 4 20"]))
